@@ -12,7 +12,9 @@ TRUSTED_BASE = [
     "Coq 8.16.1 kernel (coqc); vm_compute only in correspondence files",
     "axioms: Reals (sig_forall_dec, sig_not_dec), functional_extensionality_dep, Classical_Prop.classic",
     "translator tools/py2coq.py + signature table (epoch / gradient / score kernels regenerated each run)",
-    "hand-written skeleton coq/Skel/AndersonCD.v of AndersonCD._solve, tied by executed correspondence: the real _solve runs against "
+    "hand-written skeletons coq/Skel/{AndersonCD,GramCD,GroupBCD,ProxNewton}.v (Skel/Generic.v: shared outer loop), tied by executed correspondence "
+    "(tools/harness_solvers.py: GramCD end to end with the real compiled kernel and penalties; GroupBCD / ProxNewton on dyadic mock kernels); "
+    "for AndersonCD: the real _solve runs against "
     "mock kernels (tools/harness_acd.py) and must agree with vm_compute of the skeleton on w, Xw buffer, history, stop_crit, counts",
     "assumed behaviour of np.argpartition (some k indices with largest scores; patched to a deterministic rule in correspondence runs), "
     "np.linalg.solve inside AndersonAcceleration (tied separately), numba compilation",
@@ -21,7 +23,8 @@ TRUSTED_BASE = [
 ASSUMPTIONS = [
     "accepted Anderson extrapolations are consistent (hypothesis Haccept of andersoncd_preserves_consistency): holds when the working "
     "set contains the generalized support and the unpenalised features; searched at run time by the oracle",
-    "ProxNewton, GroupBCD, GroupProxNewton, MultiTaskBCD, GramCD, LBFGS: no skeleton theorem yet; decided by the certificate oracle on the implementation",
+    "GramCD / GroupBCD / ProxNewton: skeleton theorems (generic outer loop) tied by end-to-end / mock-trace correspondence; the accelerator is abstract "
+    "(any state machine returning consistent pairs from consistent pairs); GroupProxNewton, MultiTaskBCD, LBFGS: decided by the certificate oracle on the implementation",
 ]
 RULE = ("correspondence: (a) real AndersonCD._solve vs skeleton on mock kernels: budgets 0-4 x epochs 0-12 (on / around the extrapolation "
         "period), warm / cold / malformed starts, dense / CSC, both ws strategies, +-intercept; (b) real njit epoch / gradient / "
